@@ -379,22 +379,14 @@ impl<T: fmt::Debug, const N: usize> fmt::Debug for FixedCircularQueue<T, N> {
         let mut list = f.debug_list();
 
         let head = self.head.load(Ordering::Acquire);
-        let tail = self.tail.load(Ordering::Acquire);
+        let count = self.count.load(Ordering::Acquire);
 
-        if head <= tail {
-            for i in head..tail {
-                // SAFETY: All elements between head and tail are initialized
-                list.entry(unsafe { self.buffer[i].assume_init_ref() });
-            }
-        } else {
-            for i in head..N {
-                // SAFETY: All elements between head and N are initialized
-                list.entry(unsafe { self.buffer[i].assume_init_ref() });
-            }
-            for i in 0..tail {
-                // SAFETY: All elements between 0 and tail are initialized
-                list.entry(unsafe { self.buffer[i].assume_init_ref() });
-            }
+        // Walk `count` slots starting at head: head == tail means "empty" as well as
+        // "full", so the element count (not the tail index) decides how many are live.
+        for k in 0..count {
+            let i = (head + k) % N;
+            // SAFETY: the `count` slots starting at head (modulo N) are initialized
+            list.entry(unsafe { self.buffer[i].assume_init_ref() });
         }
 
         list.finish()
